@@ -5,7 +5,7 @@ CONSTANTS
   Sizes = {1, 2}
   FileSizes = {1, 3}
   TotalSizes = {1, 4}
-  MaxWrites = 4
+  MaxWrites = 3
   MaxTs = 2
   MaxDeletes = 1
   MaxReopens = 0
